@@ -686,6 +686,12 @@ func cmdC16(prop, tier string, seed int64, out, statsOut, replay string) {
 			emitStrictCase(w, fmt.Sprintf("foreign-override-%d-%d", fi, gi), doc, st, "another format's block inside an override block")
 		}
 	}
+	// an override block for a format nobody registered is a matter for validation, not for the parser: the document
+	// holds defined keys only, and the schema admits it
+	for ni, name := range []string{"foo", "pacman", "msi", "DEB"} {
+		doc := fmt.Sprintf("name: unreg\narch: amd64\nversion: 1.0.0\noverrides:\n  %s:\n    depends: [d]\n    umask: 0o027\n  deb:\n    depends: [e]\n", name)
+		emitStrictCase(w, fmt.Sprintf("foreign-override-unregistered-%d", ni), doc, st, "an override block for a format that is not registered")
+	}
 	// generated configurations, each valid, and each with one random injection
 	g := &pkgGen{rng: rng}
 	n := 80
